@@ -144,11 +144,17 @@ func (h *legacyHandler) onResourcePackResponseLocked(
 	var queued *Info
 	if peek {
 		queued, _ = h.outstandingPacks.Front()
-	} else {
+	} else if h.outstandingPacks.Len() > 0 {
 		queued = h.outstandingPacks.PopFront()
 	}
+	// A response may arrive while no pack is outstanding (unsolicited, or for a
+	// pack the backend sent while the proxy has nothing queued): there is no pack info then.
+	var packInfo Info
+	if queued != nil {
+		packInfo = *queued
+	}
 
-	e := newPlayerResourcePackStatusEvent(h.player, bundle.Status, bundle.ID, *queued)
+	e := newPlayerResourcePackStatusEvent(h.player, bundle.Status, bundle.ID, packInfo)
 	event.FireParallel(h.eventMgr, e, func(e *PlayerResourcePackStatusEvent) {
 		if shouldDisconnectForForcePack(e) {
 			h.player.Disconnect(&component.Translation{
